@@ -192,7 +192,7 @@ CLAIMS = {
              "triangle's own lags (bit-identical) and lags +-1, kept where float and exact comparison agree.",
         tech="Lean 4 proof (filter/sublist/partition algebra on sorted lists) + differential correspondence"),
     "C12": dict(level=PV, ref="§7 C12",
-        text="44 kernel-checked theorems, none open, about the exact model of date_utils: addMonths_devLag_iff (the inverse law "
+        text="50 kernel-checked theorems, none open, about the exact model of date_utils (incl. the date.max / inf sentinel short-circuits of calculate_dev_lag and add_months, Model/DateUtilsExt): addMonths_devLag_iff (the inverse law "
              "holds in the model iff the target is >= 1970 or a month end - the exact extent of known finding D8), "
              "addMonths_devLag_partial, the pre-1970 counterexample, addMonths_int_monthId, addMonths_monthEnd, "
              "addMonths_add, addMonths_neg, devLag_monthEnds_int, devLag_days_eq_ordinal_diff, ordinal/ofOrdinal "
@@ -209,7 +209,7 @@ CLAIMS = {
              "as KNOWN-FINDING; any failing input with expected result >= 1970 is a violation.",
         tech="Lean 4 theorems over Q (floor/round arithmetic) + exhaustive enumeration digests from the compiled model"),
     "C13": dict(level=PV, ref="§7 C13",
-        text="58 kernel-checked theorems: every accessor equals the sorted-distinct values / counts of the cells "
+        text="63 kernel-checked theorems (incl. is_slicewise_disjoint and slice_period_rows, Model/AccessorsExt): every accessor equals the sorted-distinct values / counts of the cells "
              "(periods, evaluation_dates, dev_lags, fields, metadata, field_cell_counts, field_slice_counts), "
              "isDisjoint_iff_pairwise_nonoverlap (the adjacent test is complete on start-sorted periods), nesting "
              "regular => semi-regular => disjoint, resolution_dvd_all and resolution_greatest, experienceGaps_spec, "
@@ -288,7 +288,7 @@ CLAIMS = {
              "tolerance 2^-40 only where weights=None with three triangles (1/3).",
         tech="Lean 4 theorems over Q on a blend model with the RNG draws as parameters + differential correspondence"),
     "C17": dict(level=PV, ref="§7 C17",
-        text="PARTIAL (resampling distributions, maximum-entropy quantile arithmetic and the mean/variance match of moment_match are statistical and outside the model; the structural content is proved). 26 kernel-checked theorems, none open, about the structural core of the resamplers: reimposeRank_order / _perm "
+        text="PARTIAL (resampling distributions, maximum-entropy quantile arithmetic and the mean/variance match of moment_match are statistical and outside the model; the structural content is proved). 30 kernel-checked theorems, none open, about the structural core of the resamplers (incl. the guards of maximum_entropy_ensemble in code order, meEnsembleRaw_eq_meEnsemble): reimposeRank_order / _perm "
              "(rank re-imposition used by maximum-entropy bootstrap and moment_match), develop_first_unchanged, "
              "develop_coords_fields, bootstrap_count, thin_same_positions, thin_scalars_untouched, thin_eq_self, "
              "thin_error, momentMatch_structure, momentMatch_other_fields, bootstrap_structure for EVERY factor table and "
